@@ -191,7 +191,7 @@ func Alphabet(fam *Family, inU bool, files []int) []Block {
 			continue
 		}
 		for _, f := range files {
-			out = append(out, Block{e, f})
+			out = append(out, Block{Encl: e, File: f})
 		}
 	}
 	return out
@@ -296,7 +296,7 @@ type Observation struct {
 	Text    string
 }
 
-func siteID(si *SiteInst) string { return fmt.Sprintf("%d/%s/%s", si.Block, si.Site.Tag, si.Wrap) }
+func siteID(si *SiteInst) string { return fmt.Sprintf("%d/%s/%s", si.BlockID, si.Site.Tag, si.Wrap) }
 
 // Observe renders and analyses s and returns the per-site verdicts of fam's analyzer.
 func Observe(fam *Family, s *Spec) *Observation {
